@@ -75,6 +75,7 @@ func runC03(c *Ctx) {
 	ruleVaultSwap(c, "R3.5")           // the polynomial partials are checked against is swapped together with the group and share
 	ruleCallbackIdsDistinct(c, "R3.7")
 	ruleStopListeningRemovesOne(c, "R3.8")
+	ruleGroupSavedBeforeShare(c, "R3.9") // a restart never revives the previous group (members, threshold, polynomial) next to a share of the new sharing
 }
 
 // ruleGate checks the conditions dominating the injection of a remote partial; withClockOnly restricts to R4.5.
@@ -478,6 +479,10 @@ func runC04(c *Ctx) {
 	ruleClockSource(c, "R4.7")
 	ruleStopCancelsFirst(c, "R4.8")
 	ruleBoundedSyncStartsBelowBound(c, "R4.9")
+	ruleTickPairConsistent(c, "R4.10") // the round a tick is labelled with is the round of the clock reading it carries
+	if tn := c.P.Fn("internal/chain/beacon.(*SyncManager).tryNode"); c.Anchor("R4.11", "internal/chain/beacon.(*SyncManager).tryNode", tn != nil) {
+		ruleCompletionExact(c, "R4.11", tn) // a bounded sync ends at its bound: the head never runs ahead of the clock through a sync
+	}
 }
 
 func ruleSingleSigner(c *Ctx, rule string, sign *ssa.Function) {
